@@ -178,6 +178,54 @@ package main
 //@ define n = c.field.GetName()
 //@ ensures result == ite(n[0:1] == strings.ToLower(n[0:1]), strcase.UpperCamelCase(n), n)
 
+// The documented type table (README "Type mapping"): integers and enums -> Int64, float/double -> Float64,
+// bool -> Bool, string/bytes -> String, time/duration -> the configured types, message -> Object;
+// repeated -> List, map -> Map; a cast type replaces only the Go type values are converted back to.
+// The oracle rows below are written out from the documentation, not taken from the code's tables.
+//@ func FieldBuildContext.GetTerraformType
+//@ requires wfc(c) && c.field.Type != nil
+//@ define p = c.field.FieldDescriptorProto
+//@ define ty = *c.field.Type
+//@ define ct = gogoproto.GetCastType(p)
+//@ define isT = gogoproto.IsStdTime(p) || (c.field.TypeName != nil && suffix(*c.field.TypeName, "google.protobuf.Timestamp")) || ct == "time.Time"
+//@ define isD = gogoproto.IsStdDuration(p) || (c.field.TypeName != nil && suffix(*c.field.TypeName, "google.protobuf.Duration")) || ct == "time.Duration" || (c.config.DurationCustomType != "" && ct == c.config.DurationCustomType)
+//@ define elem = replaceall(c.goType, "[]", "")
+//@ define isCast = gogoproto.IsCastType(p)
+//@ define ismap = c.gen.IsMap(p)
+//@ define rep = !ismap && c.field.IsRepeated()
+// no google.protobuf wrapper types (outside the supported fragment D)
+//@ requires !gogoproto.IsStdDouble(p) && !gogoproto.IsStdFloat(p) && !gogoproto.IsStdInt64(p) && !gogoproto.IsStdUInt64(p) && !gogoproto.IsStdInt32(p) && !gogoproto.IsStdUInt32(p) && !gogoproto.IsStdBool(p) && !gogoproto.IsStdString(p) && !gogoproto.IsStdBytes(p)
+//@ define T = "github.com/hashicorp/terraform-plugin-framework/types"
+//@ define tFloat64 = TerraformType{Type: T + ".Float64Type", ValueType: T + ".Float64", ElemType: T + ".Float64Type", ElemValueType: T + ".Float64", ValueCastToType: "float64", ZeroValue: "0", IsTypeScalar: true, IsElemTypeScalar: true}
+//@ define tInt64 = TerraformType{Type: T + ".Int64Type", ValueType: T + ".Int64", ElemType: T + ".Int64Type", ElemValueType: T + ".Int64", ValueCastToType: "int64", ZeroValue: "0", IsTypeScalar: true, IsElemTypeScalar: true}
+//@ define tString = TerraformType{Type: T + ".StringType", ValueType: T + ".String", ElemType: T + ".StringType", ElemValueType: T + ".String", ValueCastToType: "string", ZeroValue: "\"\"", IsTypeScalar: true, IsElemTypeScalar: true}
+//@ define tBool = TerraformType{Type: T + ".BoolType", ValueType: T + ".Bool", ElemType: T + ".BoolType", ElemValueType: T + ".Bool", ValueCastToType: "bool", ZeroValue: "false", IsTypeScalar: true, IsElemTypeScalar: true}
+//@ define tObject = TerraformType{Type: T + ".ObjectType", ValueType: T + ".Object", ElemType: T + ".ObjectType", ElemValueType: T + ".Object", IsMessage: true}
+//@ define userT(s) = TerraformType{Type: s.Type, ValueType: s.ValueType, ElemType: s.Type, ElemValueType: s.ValueType, ValueCastToType: s.CastToType, TypeConstructor: s.TypeConstructor}
+//@ define row(b, from) = TerraformType{Type: ite(ismap, T + ".MapType", ite(rep, T + ".ListType", b.Type)), ValueType: ite(ismap, T + ".Map", ite(rep, T + ".List", b.ValueType)), ElemType: b.ElemType, ElemValueType: b.ElemValueType, IsTypeScalar: b.IsTypeScalar, IsElemTypeScalar: b.IsElemTypeScalar, ValueCastToType: b.ValueCastToType, ValueCastFromType: ite(isCast, elem, from), ZeroValue: b.ZeroValue, IsMessage: b.IsMessage, TypeConstructor: b.TypeConstructor}
+//@ ensures [C18] imp(isT && c.config.TimeType == nil, result1 != nil)
+//@ ensures [C18] imp(!isT && isD && c.config.DurationType == nil, result1 != nil)
+//@ ensures [C02,C19,C20] imp(isT && c.config.TimeType != nil, result1 == nil && same(result0, row(userT(*c.config.TimeType), c.config.TimeType.CastFromType)))
+//@ ensures [C02,C19,C20] imp(!isT && isD && c.config.DurationType != nil, result1 == nil && same(result0, row(userT(*c.config.DurationType), c.config.DurationType.CastFromType)))
+//@ ensures [C02,C19,C20,C18] imp(!isT && !isD && ty == descriptor.FieldDescriptorProto_TYPE_DOUBLE, result1 == nil && same(result0, row(tFloat64, "float64")))
+//@ ensures [C02,C19,C20,C18] imp(!isT && !isD && ty == descriptor.FieldDescriptorProto_TYPE_FLOAT, result1 == nil && same(result0, row(tFloat64, "float32")))
+//@ ensures [C02,C19,C20,C18] imp(!isT && !isD && ty == descriptor.FieldDescriptorProto_TYPE_INT64, result1 == nil && same(result0, row(tInt64, "int64")))
+//@ ensures [C02,C19,C20,C18] imp(!isT && !isD && ty == descriptor.FieldDescriptorProto_TYPE_UINT64, result1 == nil && same(result0, row(tInt64, "uint64")))
+//@ ensures [C02,C19,C20,C18] imp(!isT && !isD && ty == descriptor.FieldDescriptorProto_TYPE_INT32, result1 == nil && same(result0, row(tInt64, "int32")))
+//@ ensures [C02,C19,C20,C18] imp(!isT && !isD && ty == descriptor.FieldDescriptorProto_TYPE_UINT32, result1 == nil && same(result0, row(tInt64, "uint32")))
+//@ ensures [C02,C19,C20,C18] imp(!isT && !isD && ty == descriptor.FieldDescriptorProto_TYPE_FIXED64, result1 == nil && same(result0, row(tInt64, "uint64")))
+//@ ensures [C02,C19,C20,C18] imp(!isT && !isD && ty == descriptor.FieldDescriptorProto_TYPE_FIXED32, result1 == nil && same(result0, row(tInt64, "uint32")))
+//@ ensures [C02,C19,C20,C18] imp(!isT && !isD && ty == descriptor.FieldDescriptorProto_TYPE_SFIXED32, result1 == nil && same(result0, row(tInt64, "int32")))
+//@ ensures [C02,C19,C20,C18] imp(!isT && !isD && ty == descriptor.FieldDescriptorProto_TYPE_SFIXED64, result1 == nil && same(result0, row(tInt64, "int64")))
+//@ ensures [C02,C19,C20,C18] imp(!isT && !isD && ty == descriptor.FieldDescriptorProto_TYPE_SINT32, result1 == nil && same(result0, row(tInt64, "int32")))
+//@ ensures [C02,C19,C20,C18] imp(!isT && !isD && ty == descriptor.FieldDescriptorProto_TYPE_SINT64, result1 == nil && same(result0, row(tInt64, "int64")))
+//@ ensures [C02,C19,C20,C18] imp(!isT && !isD && ty == descriptor.FieldDescriptorProto_TYPE_BOOL, result1 == nil && same(result0, row(tBool, "bool")))
+//@ ensures [C02,C19,C20,C18] imp(!isT && !isD && ty == descriptor.FieldDescriptorProto_TYPE_STRING, result1 == nil && same(result0, row(tString, "string")))
+//@ ensures [C02,C19,C20,C18] imp(!isT && !isD && ty == descriptor.FieldDescriptorProto_TYPE_BYTES, result1 == nil && same(result0, row(tString, "[]byte")))
+//@ ensures [C02,C19,C20,C18] imp(!isT && !isD && ty == descriptor.FieldDescriptorProto_TYPE_ENUM, result1 == nil && same(result0, row(tInt64, elem)))
+//@ ensures [C02,C19,C20,C18] imp(!isT && !isD && ty == descriptor.FieldDescriptorProto_TYPE_MESSAGE, result1 == nil && same(result0, row(tObject, "")))
+//@ ensures [C18] imp(!isT && !isD && ty == descriptor.FieldDescriptorProto_TYPE_GROUP, result1 != nil)
+
 // ===================================================================== CopyFrom, emitted code
 
 //@ emits CopyFrom when true
